@@ -235,7 +235,7 @@ def program_section(rep, ap, rng, mode, tier, what):
         ks = list(range(P)) if mode == 'dirs' else list(range(1, D))
         k = rng.choice(ks)
         rep.count('program:D', D); rep.count('program:P', P); rep.count('program:restriction', k)
-        rep.count('program:factorization', any(i[0] in ('eigh', 'qr', 'cholesky', 'svd') for i in prog['instrs']))
+        rep.count('program:factorization', any(i[0] in ('eigh', 'qr', 'cholesky', 'svd', 'lu') for i in prog['instrs']))
         rep.case(('program', text, x.tobytes().hex(), k), D >= 2 and len(prog['instrs']) >= 6,
                  sample=dict(check='program forward+reverse', program=text[:300], D=D, P=P, restriction=k))
         payload = dict(kind='program', mode=mode, prog=prog, x=x.tolist(), ybar=[y.tolist() for y in ybars], restriction=k)
